@@ -6,7 +6,7 @@ EXTENDS Deb822Tokens, Deb822, GenLib
 Docs == {Doc(<<1, 4, 6, 5, 9, 11, 2, 4>>, FALSE, TRUE), Doc(<<1, 5>>, FALSE, TRUE), Doc(<<11, 8, 4, 9, 9, 1>>, FALSE, FALSE),
          Doc(<<2, 6, 6, 4, 9, 1, 9, 11>>, TRUE, TRUE)}
 Keyrings == {<<>>, <<"k1">>, <<"k2">>, <<"k1", "k2">>, <<"k2", "k1">>}
-Ops == {"none", "splice_before", "splice_inside", "splice_inside_para", "splice_after", "second_block", "drop_sig"}
+Ops == {"none", "splice_before", "splice_inside", "splice_inside_para", "splice_after", "second_block", "drop_sig", "ws_blank_sp", "ws_blank_tab"}
 Frac == {[op |-> o, num |-> n, den |-> 16, mask |-> 8, byte |-> 32] : o \in {"sub", "del", "ins", "trunc"}, n \in 0..16}
 Mut(o) == [op |-> o, num |-> 0, den |-> 1, mask |-> 0, byte |-> 0]
 Signed == {[k |-> "cs", doc |-> d, key |-> sk, keyring |-> kr, mut |-> m] :
